@@ -60,7 +60,7 @@ def requests(L, wrapped, rng, per_fn):
     return np.concatenate(reqs), strs
 
 
-def run_part(mon, req, strs, flavour):
+def run_part(mon, req, strs, flavour, scenario=False):
     d = tempfile.mkdtemp(prefix='xv-cpp-')
     try:
         rq, st, out = [os.path.join(d, x) for x in ('req', 'str', 'out')]
@@ -69,6 +69,8 @@ def run_part(mon, req, strs, flavour):
             for s in strs:
                 fh.write(s.encode('utf8', 'surrogateescape') + b'\0')
         env = san_env(os.path.join(d, 'san')) if flavour != 'plain' else dict(os.environ)
+        if scenario:
+            env['XV_CPP_SCENARIO'] = '1'
         p = subprocess.run([mon, 'run', rq, st, out], env=env, stdout=subprocess.PIPE, stderr=subprocess.PIPE, timeout=3600)
         errf = os.path.join(d, 'stderr'); open(errf, 'wb').write(p.stderr)
         reports = parse_san_logs(os.path.join(d, 'san'), [errf]) if flavour != 'plain' else []
@@ -83,6 +85,7 @@ def main(tier):
     rng = np.random.default_rng(ck.seed * 31337 + 18)
     per_fn = 8000 if tier == 'quick' else 250000
     stats, tot = {}, dict(requests=0, skipped=0, leakchecks=0)
+    scen = dict(accepted=0, refused=0)
     wrapped_names = None
     for config in ('shipped', 'kissel'):
         L = execlib.Lib(config)
@@ -92,7 +95,7 @@ def main(tier):
         req, strs = requests(L, w['wrapped'], rng, per_fn)
         parts = np.array_split(rng.permutation(len(req)), common.NCPU)
         with ThreadPoolExecutor(common.NCPU) as ex:
-            res = list(ex.map(lambda idx: run_part(mon, req[idx], strs, 'asan'), parts))
+            res = list(ex.map(lambda kp: run_part(mon, req[kp[1]], strs, 'asan', scenario=(kp[0] == 0)), list(enumerate(parts))))
         for r in res:
             for rep in r['reports']:
                 ck.violation('%s:%s' % (rep['kind'], rep['func']), '%s in %s while driving the C++ wrappers' % (rep['kind'], rep['func']), dict(config=config, report=rep['text'][:1500]))
@@ -110,8 +113,12 @@ def main(tier):
                 elif x['type'] == 'summary':
                     for k in tot:
                         tot[k] += x[k]
+                    if x.get('scenario_accepted', -1) >= 0:
+                        scen['accepted'] += x['scenario_accepted']; scen['refused'] += x['scenario_refused']
     calls = sum(s['calls'] for s in stats.values())
     outcome_pairs = sum(1 for s in stats.values() for k in ('value', 'invalid_argument', 'bad_alloc', 'runtime_error') if s[k])
+    if scen['accepted'] < 100 or scen['refused'] < 2:
+        raise common.Inconclusive('the add-until-full scenario did not reach the capacity of the built-in collection: %r' % scen)
     if calls < 10000 or len(stats) < 60:
         raise common.Inconclusive('C++ monitor observed too little: %d calls over %d wrappers' % (calls, len(stats)))
     cov = dict(evaluations=calls, distinct_nontrivial=outcome_pairs,
@@ -120,5 +127,5 @@ def main(tier):
                     'field by field, exception type and what() against the C code and message; ASan allocation balance around both paths (3-repetition rule), '
                     'object wrappers used after the C originals are released; distinct = (wrapper, outcome class) pairs observed',
                samples=[dict(wrapper=k, **v) for k, v in sorted(stats.items())][:10], wrappers_driven=len(stats), wrappers_found_by_probe=len(wrapped_names),
-               leak_rechecks=tot['leakchecks'], requests_skipped_null_string=tot['skipped'], per_wrapper=stats)
+               leak_rechecks=tot['leakchecks'], addcrystal_scenario=scen, requests_skipped_null_string=tot['skipped'], per_wrapper=stats)
     return ck.finish(cov, ['g++ -std=c++11 -fsanitize=address,undefined', 'std::string cannot express a NULL compound: those tuples are skipped'])
